@@ -3,7 +3,9 @@
     Model: Model/PeerReg.v.  States reachable by ANY sequence of the atomic
     steps (registration of a new connection for a peer identity, keepalive
     teardown, read error, the two halves of handleDisconnect of either loop,
-    frame arrival, Disconnect, DisconnectAll, relay set-up) from the empty
+    a keepalive write that hangs and returns later, frame arrival, the locked
+    part and the individual Close calls of Disconnect / DisconnectAll, relay
+    set-up) from the empty
     manager; [fixed] is the repaired code, [pre_fix] / [once_only] the code
     before the repairs / with the first repair only. *)
 From Coq Require Import List NArith ZArith Bool.
@@ -26,15 +28,21 @@ Theorem C32_source_facts :
   gen_register_check_and_insert_atomic = true /\ gen_register_reject_closes_without_loops = true /\
   gen_disconnect_removes_only_same_conn = true /\
   gen_readloop_teardown_reports = 1%N /\ gen_keepalive_teardown_reports = 2%N /\
-  gen_agent_cleanup_by_peer_id = true /\ gen_agent_callback_wired = true.
+  gen_agent_cleanup_by_peer_id = true /\ gen_agent_callback_wired = true /\
+  gen_disconnectall_snapshot_and_reset_atomic = true /\ gen_disconnect_delete_under_lock = true /\
+  gen_loops_close_their_own_connection = true /\ gen_agent_cleanup_synchronous = true.
 Proof. repeat split; reflexivity. Qed.
 Print Assumptions C32_source_facts.
 
-(** At most one live connection per remote identity. *)
+(** At most one live connection per remote identity: an open connection is the
+    registered one of its peer, or one that Disconnect / DisconnectAll has just
+    unregistered and is about to close. *)
 Theorem C32_one_live_connection : forall s, reachable s ->
-  (forall c x, get s c = Some x -> c_closed x = false -> lookup (c_peer x) (reg s) = Some c) /\
+  (forall c x, get s c = Some x -> c_closed x = false ->
+      lookup (c_peer x) (reg s) = Some c \/ In c (closing s)) /\
   (forall c1 c2 x1 x2, get s c1 = Some x1 -> get s c2 = Some x2 ->
-      c_closed x1 = false -> c_closed x2 = false -> c_peer x1 = c_peer x2 -> c1 = c2) /\
+      c_closed x1 = false -> c_closed x2 = false -> c_peer x1 = c_peer x2 ->
+      ~ In c1 (closing s) -> ~ In c2 (closing s) -> c1 = c2) /\
   (forall p c, lookup p (reg s) = Some c -> exists x, get s c = Some x /\ c_peer x = p /\ c_accepted x = true).
 Proof. exact one_live_connection. Qed.
 Print Assumptions C32_one_live_connection.
@@ -76,8 +84,7 @@ Print Assumptions C32_stale_teardown_nonvacuous.
 
 (** The script operations that the harness runs on the real agent are
     interleavings of the atomic steps the theorems quantify over. *)
-Theorem C32_script_ops_are_interleavings : forall s o, reachable s ->
-  reachable (apply fixed s o) \/ apply fixed s o = set_blocked s.
+Theorem C32_script_ops_are_interleavings : forall s o, reachable s -> ok_or_blocked (apply fixed s o).
 Proof. exact script_ops_are_interleavings. Qed.
 Print Assumptions C32_script_ops_are_interleavings.
 
